@@ -150,7 +150,9 @@ def context_for(ev, sp, rng):
         elif mcv == "OAs":
             vals = {"cpu": 1}; pl = obs.i32(1)
         elif mcv == "OAr":
-            vals = {"cpu": 1, "tid": 11}; pl = obs.i32(1, 11)
+            # the target is a thread of the same process, or of the second or third process of the loom
+            tgt = rng.choice([11, 12, 13])
+            vals = {"cpu": 1, "tid": tgt}; pl = obs.i32(1, tgt)
         elif mcv == "OHC":
             pass
         elif mcv in ("OM[", "OM]", "OM="):
@@ -198,7 +200,8 @@ def context_for(ev, sp, rng):
 
 
 def base_trace(wd, events, require_all=True):
-    """Thread 10 runs `events` between OHx and OHe; thread 11 is alive."""
+    """Thread 10 runs `events` between OHx and OHe; thread 11 (same process) and
+    threads 12 and 13 (two more processes of the loom) are alive."""
     req = {n: v for (n, v) in histgen.REQUIRE.values()} if require_all else None
     extra = {"ovni": {"mark": {"1": {"title": "s", "chan_type": "single"}, "2": {"title": "k", "chan_type": "stack"}}}}
     t = 100
@@ -212,6 +215,9 @@ def base_trace(wd, events, require_all=True):
     shutil.rmtree(wd, ignore_errors=True)
     obs.write_stream(wd, "L", 1, 10, obs.thread_meta(10, 1, "L", cpus=[(0, 0), (1, 1)], require=req, extra=extra), h10)
     obs.write_stream(wd, "L", 1, 11, obs.thread_meta(11, 1, "L", require=req, extra=extra), h11)
+    for pid_, tid_ in ((2, 12), (3, 13)):
+        h = [(101, "OHx", obs.i32(-1, tid_, 0), False), (t + 5 + tid_, "OHe", b"", False)]
+        obs.write_stream(wd, "L", pid_, tid_, obs.thread_meta(tid_, pid_, "L", app_id=pid_, require=req, extra=extra), h)
     os.makedirs(os.path.join(wd, "cfg"), exist_ok=True)
 
 
